@@ -1,4 +1,5 @@
 import Srctools.Proofs.C10
+import Srctools.Proofs.C10Bytes
 import Srctools.Gen.Bsp
 /-!
 # C10 — saving an unmodified BSP is lossless whichever lumps were looked at
@@ -159,5 +160,64 @@ theorem C10_flush_needs_topo :
     (save tablesBeforeFix (mainCodec tablesBeforeFix)
       (accesses tablesBeforeFix (mainCodec tablesBeforeFix) [9] (init fun l => l + 100))).parsed 9 = some 0 := by
   decide +kernel
+
+/-! ## The byte layer (`Model/C10Bytes.lean`): header, lump table, revision, bodies, game-lump section -/
+
+open Bytes in
+/-- **layout.** For every BSP value that fits (sizes below 2³¹, 64 lumps, compressed lumps non-empty,
+PAKFILE uncompressed, GAME_LUMP raw data empty, game lump ids non-zero), any lump body order that
+contains every lump once, and both header field orders: reading the bytes `save` lays out gives back
+the version, revision, every lump's version / flag / (decompressed) bytes and every game lump's
+id / flags / version / (decompressed) bytes. -/
+theorem C10_layout (Z : Lzma) (hZ : Z.Inverse) (order : List Nat) (l4d2 : Bool) (x : Bsp) (F : Fits Z order l4d2 x) :
+    readFile Z (writeFile Z order l4d2 x) l4d2 = x :=
+  layout_roundtrip Z hZ order l4d2 x F
+
+/-- the body order of the current source (`LUMP_WRITE_ORDER`) is admissible for `C10_layout`. -/
+theorem C10_layout_order_current :
+    Gen.Bsp.tables.writeOrder.Nodup ∧ ∀ id, id < 64 → id ∈ Gen.Bsp.tables.writeOrder := by decide +kernel
+
+open Bytes in
+/-- the L4D2 detection of `BSP.read` (first header int of lump 0 is zero) recognises what `save` wrote:
+in L4D2 order exactly when the entity lump has version 0, never in the normal order. -/
+theorem C10_layout_detect (Z : Lzma) (order : List Nat) (x : Bsp) :
+    (Fits Z order true x → looksL4D2 (writeFile Z order true x) = ((x.lumps.getD 0 default).version == 0)) ∧
+    (Fits Z order false x → looksL4D2 (writeFile Z order false x) = false) :=
+  ⟨detect_l4d2 Z order x, detect_normal Z order x⟩
+
+namespace LayoutExample
+open Bytes
+
+/-- a toy LZMA: prepend a byte. -/
+def Z : Lzma := { comp := fun b => 76 :: b, decomp := fun b => b.tail }
+example : Z.Inverse := fun _ => rfl
+
+def sample : Bsp :=
+  { magic := 1347633750, version := 21, revision := 4294967293
+    lumps := (List.range 64).map fun i =>
+      if i = 0 then ⟨0, [123, 10, 125, 10, 0], true⟩ else if i = 1 then ⟨0, [1, 2, 3], false⟩
+      else if i = 10 then ⟨1, [9, 9], true⟩ else if i = 40 then ⟨3, [80, 75, 5, 6], false⟩ else ⟨0, [], false⟩
+    game := [⟨1936749168, 0, 10, [4, 5, 6, 7]⟩, ⟨1685090928, 1, 4, [8, 9]⟩] }
+
+/-- the round trip, computed, with the write order of the current source, in both header orders
+(compressed lumps, a compressed last game lump → dummy directory entry). -/
+example : readFile Z (writeFile Z Gen.Bsp.tables.writeOrder false sample) false = sample := by decide +kernel
+example : readFile Z (writeFile Z Gen.Bsp.tables.writeOrder true sample) true = sample := by decide +kernel
+example : needDummy sample.game = true := by decide +kernel
+
+/-- … and the hypotheses of `C10_layout` hold for it. -/
+example : Fits Z Gen.Bsp.tables.writeOrder true sample where
+  file := by decide +kernel
+  magic := by decide +kernel
+  version := by decide +kernel
+  revision := by decide +kernel
+  lumps := by decide +kernel
+  lump := by decide +kernel
+  gameLump := by decide +kernel
+  pak := by decide +kernel
+  game := by decide +kernel
+  order := C10_layout_order_current
+
+end LayoutExample
 
 end C10
